@@ -193,10 +193,14 @@ class Program:
         self.methods = {}     # (selfhead, method) -> [Func]
         self.free = {}
         self.promoted = {}
+        self.named_consts = {}
         self.src_root = src_root
         self._src = {}
         for f in self.funcs:
             self.by_name.setdefault(f.name, []).append(f)
+            if f.is_const and '::promoted[' not in f.name:
+                self.named_consts.setdefault(f.name.split('::')[-1], []).append(f)
+                continue
             if f.is_const:
                 m = re.search(r'([A-Za-z_0-9]+)::promoted\[(\d+)\]$', f.name)
                 self.promoted.setdefault((m.group(1), int(m.group(2))), []).append(f)
@@ -488,6 +492,8 @@ class Engine:
                 idx = ENUMS[m.group(1)].index(m.group(2))
                 pay = {idx: (Agg('const', ()),) if m.group(3) else ()}
                 return En(m.group(1), S(idx, 'isize'), pay)
+        if segs[-1] in self.prog.named_consts and segs[-1].isupper():
+            return ('PROMOTED', self.prog.named_consts[segs[-1]][0])
         return FnV('item', sp)
 
     def operand(self, st, fr, op):
